@@ -782,6 +782,45 @@ package rueidis
 //@   assert [C03 the-batch-counts-as-retryable-only-if-every-command-is] at acquire: retryable ==> returned(allRetryable)
 
 // ---------------------------------------------------------------------------------------------
+// C09 — one request per (key, command) in flight on a connection (lru.go, pipe.go DoCache), sequential part:
+// a new flight is registered only when no pending or still-valid entry exists; joining or hitting registers nothing;
+// a request is written only after a miss; a failed request cancels its flight, which unregisters it and wakes the waiters.
+//@ func lru.Flight #c09
+//@   requires 0 <= now.Add(ttl).UnixMilli() && now.Add(ttl).UnixMilli() < 72057594037927936
+//@   modifies *
+//@   assert [C09 no-second-flight-while-one-is-pending-or-still-valid] at PushBack: ele == nil || calls(Remove) == 1
+//@   assert [C09 an-entry-makes-way-for-a-new-flight-only-when-completed-and-expired] at Remove: arg1 == ele && e.val.typ != 0 && e.val.relativePTTL(now) <= 0
+//@   assert [C09 the-registered-flight-is-pending-and-carries-its-command] at PushBack: ptrof(arg1, *cacheEntry).val.typ == 0 && ptrof(arg1, *cacheEntry).cmd == cmd && ptrof(arg1, *cacheEntry).err == nil
+//@   ensures [C09 joining-or-hitting-registers-nothing] ce != nil ==> calls(PushBack) == 0
+//@   ensures [C09 a-miss-registers-at-most-one-flight] calls(PushBack) <= 1
+//@   ensures [C09 a-registered-flight-is-reported-as-a-miss] calls(PushBack) == 1 ==> (ce == nil && v.typ == 0)
+
+//@ func lru.Cancel #c09
+//@   modifies *
+//@   assert [C09 only-a-pending-flight-is-cancelled-and-it-gets-the-error] at Remove: e.val.typ == 0 && e.err == err && arg1 == ele
+//@   assert [C09 the-cancelled-flight-is-unregistered] at delete#1: arg1 == cmd
+//@   ensures [C09 nobody-is-woken-unless-a-pending-flight-was-cancelled] calls(close) <= calls(Remove) && calls(close) <= 1
+//@   ensures [C09 cancelling-a-pending-flight-wakes-its-waiters where-defined] (calls(Remove) == 1 && ch != nil) ==> calls(close) == 1
+//@   assert [C09 the-channel-closed-is-the-cancelled-flights] at close: calls(Remove) == 1 && arg0 == ch
+
+//@ func adapter.Flight #c09
+//@   modifies *
+//@   ensures [C09 an-existing-flight-is-joined-not-replaced where-defined] (flight != nil && entries != nil) ==> (result1 == flight && result0.typ == 0 && entries[cmd] == flight)
+//@   ensures [C09 a-miss-registers-a-pending-flight where-defined] (flight == nil && entries != nil) ==> (entries[cmd] != nil && result1 == nil && result0.typ == 0)
+//@ func adapter.Cancel #c09
+//@   modifies *
+//@   assert [C09 the-waiters-get-the-error-and-no-value] at set: arg1.typ == 0 && arg2 == err
+//@   ensures [C09 a-failed-request-is-not-cached] calls(Set) == 0
+//@   ensures [C09 the-cancelled-flight-is-unregistered where-defined] calls(set) == 1 ==> entries[cmd] == nil
+
+//@ func pipe.DoCache #c09
+//@   option opaque-pkgs=github.com/redis/rueidis/internal/cmds
+//@   modifies *
+//@   assert [C09 a-request-is-written-only-after-a-miss] at DoMulti: calls(Flight) == 1 && first(returned(Flight)).typ == 0 && second(returned(Flight)) == nil
+//@   assert [C09 the-flight-that-failed-is-the-one-cancelled] at Cancel: arg1 == ck && arg2 == cc && arg3 != nil
+//@   ensures [C09 a-failed-exec-cancels-its-flight where-defined] second(returned(ToArray)) != nil ==> calls(Cancel) == 1
+
+// ---------------------------------------------------------------------------------------------
 // C07 — cached replies expire at the earlier of the client TTL and the server PTTL (message.go, lru.go).
 // The expiry of a cached message is the 56-bit little-endian number kept in RedisMessage.ttl (0 = none).
 //@ func RedisMessage.setExpireAt
